@@ -1,10 +1,11 @@
 #!/usr/bin/env python3
 """Confirm a sub-agent's mutant myself and store it under seeded/<id>/.
-usage: seed_confirm.py <Cxx> <n>   (reads /tmp/mut/<Cxx>/patch<n>.diff, demo<n>_test.go, meta<n>.json)"""
+usage: seed_confirm.py <Cxx> <n> [<srcroot> [<store-as-n>]]   (reads <srcroot>/<Cxx>/patch<n>.diff, demo<n>_test.go, meta<n>.json; srcroot defaults to /tmp/mut)"""
 import json, os, re, shutil, subprocess, sys
 prop, n = sys.argv[1], sys.argv[2]
-src = "/tmp/mut/%s" % prop
-wt = "/var/tmp/seedwt-%s-%s" % (prop, n)
+src = "%s/%s" % (sys.argv[3] if len(sys.argv) > 3 else "/tmp/mut", prop)
+store_n = sys.argv[4] if len(sys.argv) > 4 else n
+wt = "/var/tmp/seedwt-%s-%s" % (prop, store_n)
 env = dict(os.environ, GOFLAGS="-mod=mod", GOPROXY="off", GOSUMDB="off", GOTOOLCHAIN="local")
 def sh(cmd, cwd=None, timeout=1500):
     p = subprocess.run(cmd, cwd=cwd, env=env, shell=True, stdout=subprocess.PIPE, stderr=subprocess.STDOUT, timeout=timeout)
@@ -39,7 +40,7 @@ try:
     ok = rc0 == 0 and rca == 0 and rcb == 0 and rc1 != 0 and rct == 0
     res["confirmed"] = ok
     if ok:
-        d = "/verif/seeded/%s-%s" % (prop, n)
+        d = "/verif/seeded/%s-%s" % (prop, store_n)
         os.makedirs(d, exist_ok=True)
         shutil.copyfile(patch, os.path.join(d, "patch.diff"))
         shutil.copyfile(demo, os.path.join(d, "demo_test.go"))
